@@ -8,6 +8,7 @@ from jaqalpaq.core.algorithm.visitor import Visitor
 from jaqalpaq.core import circuitbuilder
 from jaqalpaq.core.register import Register, NamedQubit
 from jaqalpaq.core.constant import Constant
+from jaqalpaq.core.parameter import make_item_name
 
 
 def fill_in_let(circuit, override_dict=None):
@@ -110,6 +111,11 @@ class LetFiller(Visitor):
             new_index = self.resolve_constant(qubit.alias_index)
         else:
             new_index = qubit.alias_index
+        if qubit.name != make_item_name(qubit.alias_from, qubit.alias_index):
+            # A qubit alias declared by a map statement keeps its name;
+            # spelled as source[index] it could be captured by a macro
+            # parameter that has the name of the source.
+            return NamedQubit(qubit.name, new_from, new_index)
         return new_from[new_index]
 
     def visit_Register(self, reg):
